@@ -58,6 +58,33 @@ def C09(ctx):
                      "inputs that are not valid UTF-8 cannot be passed to a &str API (counted as inadmissible)"])
 
 
+def fresh_process_determinism(ctx, fam, bound, nproc, label):
+    """C10/C18: the same function-level cases in `nproc` fresh processes (different hash seeds); Trace_Det requires
+    one output per input. The first process is the reference (its trace is validated by Trace_Fn)."""
+    import hashlib
+    cases, n = tlc_gen(ctx, "Gen_Fn", {"Family": fam, "Bound": bound}, "%s-%s-procs" % (fam, bound))
+    d = os.path.dirname(cases)
+    obs = []
+    for k in range(nproc):
+        out = os.path.join(d, "p%d.ndjson" % k)
+        rc, o = sh([CONFORM, "run", cases, out], timeout=1800, env={"RUST_BACKTRACE": "0"})
+        if rc != 0:
+            raise ToolError("harness run failed: " + o[-300:])
+        if k == 0:
+            validate(ctx, "Trace_Fn", out, label + "-ref", distinct_key=fn_key)
+        for ln in open(out):
+            e = json.loads(ln)
+            inp = e.get("q") or e.get("p") or []
+            obs.append({"op": "det", "id": inp, "who": "ref" if k == 0 else "proc%d" % k, "res": e.get("res"),
+                        "proj": hashlib.sha256(json.dumps([e.get("res"), e.get("out"), e.get("kind")]).encode()).hexdigest()})
+    obs.sort(key=lambda e: (json.dumps(e["id"]), 0 if e["who"] == "ref" else 1))
+    dt = os.path.join(d, "det.ndjson")
+    with open(dt, "w") as w:
+        for e in obs:
+            w.write(json.dumps(e) + "\n")
+    validate(ctx, "Trace_Det", dt, label, group="key", chunk=20000)
+
+
 def C10(ctx):
     q = ctx.quick
     mc(ctx, "MC_UriCanon", law_cfg("QueryLaws", "query_lists", 2), label="QueryLaws-lists")
@@ -67,13 +94,15 @@ def C10(ctx):
     fn_campaign(ctx,
                 [("query_bytes", 0), ("query_escapes", 0), ("query_ampamp", 2), ("query_lists", 2 if q else 3)],
                 [("query", 4000 if q else 200000)])
+    fresh_process_determinism(ctx, "query_lists", 2, 4 if q else 16, "fresh-processes")
     return dict(
         rule="E: TLC enumerates every parameter list of <= %d components over 80 components (10 names incl. prefix-"
              "related ones x 7 values, with and without '='), all orders being distinct inputs, '&&' variants, every "
              "byte in 5 spellings in name and value position; R: seeded random queries. Executed through "
              "query_string_to_normalized_map + canonicalize_query_to_string, judged by TLC re-evaluating "
              "UriCanon!CanonQuery. distinct = distinct (input, result class)." % (2 if q else 3),
-        assumptions=["process-level hash seeds are varied by the C18 check, which reuses this oracle"])
+        assumptions=["process-level randomness: the <=2-component lists are canonicalised in 4 (thorough 16) fresh processes "
+                     "(different hash seeds) and Trace_Det requires identical outputs; C18 does the same end to end"])
 
 
 def C06(ctx):
@@ -152,6 +181,7 @@ def pipeline_mc(ctx, quick):
 def C13(ctx):
     q = ctx.quick
     pipeline_mc(ctx, q)
+    fn_campaign(ctx, [("errtable", 0)], [])
     req_campaign(ctx, [("defects", 2 if q else 14), ("scripts", 1 if q else 0)])
     return dict(
         rule="MC: SigV4.tla Precedence/Taxonomy over every subset of simultaneous defects (%s) x 4 carriers x provider "
